@@ -65,6 +65,16 @@ fn check(case: &str) -> Option<String> {
                 let mut p2 = Parser::from_str(&text);
                 let d: Vec<_> = p2.datum_iter().map(|r| r.map(|d| d.value().clone())).collect();
                 if d.len() != 2 || d[0].as_ref().ok() != Some(&a) || d[1].as_ref().ok() != Some(&b) { return Some(format!("datum_iter disagrees on {:?}", text)); }
+                // the same concatenation from a byte slice and from a stream
+                let mut p3 = Parser::from_slice(text.as_bytes());
+                let g3: Vec<_> = p3.value_iter().collect();
+                let mut p4 = Parser::from_reader(text.as_bytes());
+                let g4: Vec<_> = p4.value_iter().collect();
+                for (name, g) in [("byte slice", &g3), ("stream", &g4)] {
+                    if !(g.len() == 2 && g[0].as_ref().ok() == Some(&a) && g[1].as_ref().ok() == Some(&b)) {
+                        return Some(format!("{:?} read from a {} parses as {:?}, want [{}, {}]", text, name, g.iter().map(|r| match r { Ok(v) => v.to_string(), Err(e) => format!("Err({})", e) }).collect::<Vec<_>>(), a, b));
+                    }
+                }
             }
             None
         }
